@@ -115,12 +115,11 @@ func VerifC06Session(s *Session, c net.Conn) bool { return s.session(c) }
 // VerifC06Handle is the real server-side handle() for one accepted connection.
 func VerifC06Handle(l *Listener, c net.Conn) { handle(l.log, c, l, "verif") }
 
-// VerifC06KeyNextSync calls the real keyNextSync until the 1-in-(50+d) draw succeeds (at most
-// max tries); nil when the function refuses (keysNext pending, not a client, moving).
+// VerifC06KeyNextSync forces the re-key roll: it calls the real keyNextSync until the
+// 1-in-(50+d) draw succeeds (at most max tries) WHATEVER the state of the Session - the shim does
+// not look at keysNext itself, so "the roll fires while a pair is still pending" is answered by
+// keyNextSync's own guard; nil when no call ever returned an announcement.
 func VerifC06KeyNextSync(s *Session, max int) *com.Packet {
-	if !s.IsClient() || s.keysNext != nil || s.state.Moving() {
-		return s.keyNextSync()
-	}
 	for i := 0; i < max; i++ {
 		if n := s.keyNextSync(); n != nil {
 			return n
